@@ -158,6 +158,11 @@ struct Z;
 impl Drop for Z { fn drop(&mut self) { paused(|| log("drop:z".to_string())); } }
 impl E for Z { const SZ: usize = 0; fn mk(_: u64) -> Z { Z } fn eid(&self) -> u64 { 0 } }
 
+/// zero-sized, 8-aligned
+#[repr(align(8))]
+struct Z8;
+impl E for Z8 { const SZ: usize = 0; fn mk(_: u64) -> Z8 { Z8 } fn eid(&self) -> u64 { 0 } }
+
 /// zero-sized panic payload: raising it does not allocate
 struct Inject;
 
@@ -194,8 +199,12 @@ fn run<T: E, N: ArrayLength>(kv: &KV, tracked: bool) -> String {
                     T::mk(1000 + i as u64)
                 })
             }));
+            let mut aligned = true;
             let (res, items) = match r {
                 Ok(b) => {
+                    // C01 on the heap: the address the box holds is a multiple of the element alignment,
+                    // also when no block was requested (N = 0, zero-sized elements)
+                    aligned = (&*b as *const GenericArray<T, N> as usize) % std::mem::align_of::<T>() == 0;
                     let it: Vec<u64> = paused(|| b.iter().map(|x| x.eid()).collect());
                     drop(b);
                     ("ok", it)
@@ -212,13 +221,15 @@ fn run<T: E, N: ArrayLength>(kv: &KV, tracked: bool) -> String {
             let fre = if req == 1 { s.first_freed } else { 0 };
             let mut f = discipline(&s);
             if res == "ok" && ncalls != n { f.push(format!("generator-called-{}-times", ncalls)); }
+            if !aligned { f.push("misaligned-box".to_string()); }
+            let al = if res == "ok" { format!(" aligned={}", aligned as u8) } else { String::new() };
             if tracked {
                 // every value the generator handed over is dropped exactly once (C04: also when a later call panics)
                 let created = if res == "ok" { ncalls } else { ncalls.saturating_sub(1) };
                 let dropped = d.matches(',').count() + if d.contains("[]") || d.is_empty() { 0 } else { 1 };
                 if dropped != created { f.push(format!("generated-{}-dropped-{}", created, dropped)); }
             }
-            format!("res={} items=[{}] calls={} block_req={} block_free={} zero_req={}{} | orc={}", res, show_nats(items), ncalls, req, fre, s.zero_req, d, orc(f))
+            format!("res={} items=[{}] calls={} block_req={} block_free={} zero_req={}{}{} | orc={}", res, show_nats(items), ncalls, req, fre, s.zero_req, al, d, orc(f))
         }
         "try_from_vec" | "try_from_boxed_slice" | "vec_try_into" | "box_slice_try_into" => {
             start(-1);
@@ -350,6 +361,21 @@ fn big(kv: &KV) -> String {
             "big_boxed_generate" => { let b = Box::<GenericArray<u32, Big>>::generate(|i| i as u32); b[12345] == 12345 }
             "big_box_arr" => { let b = ga_harness::generic_array::box_arr![7u32; Big]; b[1048575] == 7 }
             "big_boxed_collect" => { let b: Box<GenericArray<u32, Big>> = (0..1048576u32).collect(); b[99] == 99 }
+            // few, very large elements: the element *count* is small, the array is not (512 KiB / 256 KiB)
+            "big_elems_boxed_generate" => {
+                let b = Box::<GenericArray<GenericArray<u8, U16384>, U32>>::generate(|i| GenericArray::generate(|_| i as u8));
+                b[31][16383] == 31 && b[0][0] == 0
+            }
+            "big_elems_default_boxed" => { let b = GenericArray::<GenericArray<u8, U16384>, U32>::default_boxed(); b[31][16383] == 0 }
+            "big_elems16_boxed_generate" => {
+                let b = Box::<GenericArray<GenericArray<u8, U16384>, U16>>::generate(|i| GenericArray::generate(|_| i as u8));
+                b[15][16383] == 15
+            }
+            "big_elems_box_map" => {
+                let b = GenericArray::<GenericArray<u8, U16384>, U32>::default_boxed();
+                let c = b.map(|mut x| { x[1] = 7; x });
+                c[31][1] == 7 && c[0][0] == 0
+            }
             "big_into_vec" => { let b = GenericArray::<u32, Big>::default_boxed(); let v = b.into_vec(); v.len() == 1048576 }
             _ => false,
         };
@@ -373,6 +399,7 @@ fn answer(kv: &KV) -> String {
         "unit" => by_len::<()>(kv, false),
         "tr" => by_len::<Tr>(kv, true),
         "z" => by_len::<Z>(kv, true),
+        "z8" => by_len::<Z8>(kv, false),
         _ => "bad-kind".to_string(),
     }
 }
